@@ -457,6 +457,17 @@ theorem witness_sphere_persp :
   · rw [isVisibleSphere_persp_eq]; ft_eval_persp
   · rw [isVisibleSphere_persp_eq]; ft_eval_persp
   · rw [completelyContainsSphere_persp_eq]; ft_eval_persp
+/-- NEGATIVE witness for the literal reading of "never false for an object that TOUCHES it": the unit ball centred at `(5, 0, −5)` meets the CLOSED
+frustum (in the single point `(21/5, 0, −28/5)` of the right plane) and is reported NOT visible — the test is `>= 0`.  The clause is
+proved (`isVisibleSphere_*_touches`) and claimed for objects that reach the OPEN frustum ("interior of that region"); closed tangency is outside it -/
+theorem witness_tangent_outside_not_visible :
+    regionPersp (4 : ℚ) 8 (-3) 3 3 (-3) ⟨21/5, 0, -28/5⟩ ∧ sphereMem (⟨⟨5, 0, -5⟩, 1⟩ : Sphere3 ℚ) ⟨21/5, 0, -28/5⟩ ∧
+    ¬ interiorPersp (4 : ℚ) 8 (-3) 3 3 (-3) ⟨21/5, 0, -28/5⟩ ∧
+    Gen.FrustumTest.isVisibleSphere_persp (0 : ℚ) 1000000 wsqrt 4 8 (-3) 3 3 (-3) identity44 ⟨⟨5, 0, -5⟩, 1⟩ = false := by
+  refine ⟨?_, ?_, ?_, witness_sphere_persp.2.2.2.2.2.1⟩
+  · norm_num [regionPersp]
+  · norm_num [sphereMem]
+  · norm_num [interiorPersp]
 theorem witness_box_persp :
     Gen.FrustumTest.completelyContainsBox_persp (0 : ℚ) 1000000 wsqrt 4 8 (-3) 3 3 (-3) identity44 ⟨⟨-1, -1, -7⟩, ⟨1, 1, -5⟩⟩ = true ∧
     Gen.FrustumTest.isVisibleBox_persp (0 : ℚ) 1000000 wsqrt 4 8 (-3) 3 3 (-3) identity44 ⟨⟨-1, -1, -7⟩, ⟨1, 1, -5⟩⟩ = true ∧
